@@ -163,7 +163,10 @@ BASE_LIB = {
 
 # function-level options / format fields and a non-default value
 FUNC_OPTIONS = [("F_string_len_trim", False), ("F_force_wrapper", True), ("C_force_wrapper", True),
-                ("F_create_bufferify_function", False)]
+                ("F_create_bufferify_function", False),
+                ("C_name_template", "XX_{C_prefix}{C_name_scope}{underscore_name}{function_suffix}{template_suffix}"),
+                ("F_C_name_template", "yy_{F_C_prefix}{F_name_scope}{underscore_name}{function_suffix}{template_suffix}"),
+                ("return_scalar_pointer", "scalar")]
 # F_this / literalinclude are also consumed by the class itself (derived type code), so they are not function-level
 FUNC_FORMATS = [("C_result", "rvc"), ("F_result", "rvf"), ("C_this", "me"), ("c_temp", "tmp_"),
                 ("C_string_result_as_arg", "outstr"), ("F_string_result_as_arg", "outstr"), ("PY_result", "rvpy"),
@@ -228,7 +231,11 @@ def relations(ctx, quick):
     conts = containers(BASE_LIB)
     todo = [(c, s) for c in conts for s in combos]
     if quick:
-        todo = rng.sample(todo, 14)
+        # every key once (random container) + a few extra random placements
+        byk = {}
+        for t in todo:
+            byk.setdefault(t[1][1], []).append(t)
+        todo = [rng.choice(v) for v in byk.values()] + rng.sample(todo, 6)
     from concurrent.futures import ThreadPoolExecutor
 
     def r1(job):
